@@ -72,6 +72,16 @@ fn interleave(v: &serde_json::Value) -> serde_json::Value {
         let me = left[who as usize];
         let mut c = 1; while c < me { cur.push((who, c)); let mut l2 = left; l2[who as usize] -= c; rec(out, cur, 1 - who, l2, switches_left - 1, stride); cur.pop(); c += stride; }
     }
+    // cost bound: the number of schedules grows with (steps/stride)^switches; long programs get a wider stride so
+    // that one pair stays below `max_schedules` (the stride actually used is reported)
+    let cap = v.get("max_schedules").and_then(|x| x.as_u64()).unwrap_or(u64::MAX);
+    fn count(who: u8, left: [usize; 2], switches_left: usize, stride: usize) -> u64 {
+        let mut n = 1u64; if switches_left == 0 { return n; }
+        let me = left[who as usize]; let mut c = 1; while c < me { let mut l2 = left; l2[who as usize] -= c; n = n.saturating_add(count(1 - who, l2, switches_left - 1, stride)); c += stride; if n > (1 << 40) { return n; } }
+        n
+    }
+    let mut stride = stride;
+    while count(0, [na, nb], k, stride).saturating_add(count(1, [na, nb], k, stride)) > cap { stride = stride * 3 / 2 + 1; }
     for start in [0u8, 1u8] { let mut cur = vec![]; rec(&mut schedules, &mut cur, start, [na, nb], k, stride); }
     let mut runs = 0u64; let mut bad: Vec<serde_json::Value> = vec![]; let mut nbad = 0u64; let mut distinct = std::collections::HashSet::new();
     for s in &schedules {
@@ -84,7 +94,7 @@ fn interleave(v: &serde_json::Value) -> serde_json::Value {
                 bad.push(serde_json::json!({"schedule": s.iter().map(|(w, c)| format!("{}:{}", if *w == 0 { "a" } else { "b" }, if *c == usize::MAX { "end".to_string() } else { c.to_string() })).collect::<Vec<_>>(), "who": name, "at_step": at, "got": got.get(at), "want": want.get(at)})); } }
         }
     }
-    serde_json::json!({"status": "ok", "schedules": runs, "steps_a": na, "steps_b": nb, "nbad": nbad, "bad": bad, "distinct": distinct.len()})
+    serde_json::json!({"status": "ok", "schedules": runs, "steps_a": na, "steps_b": nb, "nbad": nbad, "bad": bad, "distinct": distinct.len(), "stride_used": stride})
 }
 
 #[derive(Clone, Copy, Debug, PartialEq, Eq, Hash)]
